@@ -1943,3 +1943,84 @@ func ruleSKIP1(c *Ctx) []Ob {
 	}
 	return softenUndecided(o.list)
 }
+
+// ---------------------------------------------------------------- PLAN9
+
+// PLAN9: no range is derived from an ordering comparison with a nil operand. In
+// index.Range a nil bound means "unbounded", so Gt(nil) and Lt(nil) would both
+// become {nil, nil, false, false}: indistinguishable, reported empty, and when
+// intersected a nil end is read as a value below every other end. Every row of
+// the criteria->range table for an operator other than Eq is reached only when
+// the operand is known non-nil (or the operator is known to be Eq).
+func rulePLAN9(c *Ctx) []Ob {
+	o := newObs(c, "PLAN9")
+	eqK, okEq := c.opConst("EqOp")
+	n := 0
+	for _, fn := range c.LibFuncs {
+		if c.pkgRel(fn) != "" || fn.Signature.Results().Len() != 1 || fn.Parent() != nil {
+			continue
+		}
+		rp, ok := fn.Signature.Results().At(0).Type().(*types.Pointer)
+		if !ok || !c.libNamedIs(rp.Elem(), "index", "Range") {
+			continue
+		}
+		cases := c.opCases(fn, "UnaryCriteria", "OpType")
+		if len(cases) < 3 || !okEq {
+			continue
+		}
+		isOperand := func(x ssa.Value) bool {
+			for _, og := range origins(x) {
+				if c.isFieldLoadOf(og, "query", "UnaryCriteria", "Value") {
+					return true
+				}
+			}
+			return false
+		}
+		guards := nonNilEdges(fn, isOperand)
+		guards = append(guards, cases[eqK]...)
+		// the guard may also be at the (single) call site
+		callGuarded := true
+		sites := c.staticCallers(fn)
+		if len(sites) == 0 {
+			callGuarded = false
+		}
+		for _, s := range sites {
+			caller := s.Parent()
+			cg := nonNilEdges(caller, isOperand)
+			if !guardedBy(caller, s.Block(), cg) {
+				callGuarded = false
+			}
+		}
+		for k, es := range cases {
+			if k == eqK || len(es) == 0 {
+				continue
+			}
+			for _, ret := range returnsOf(fn) {
+				hit := false
+				for _, e := range es {
+					if e.to() == ret.Block() || e.to().Dominates(ret.Block()) {
+						hit = true
+					}
+				}
+				if !hit {
+					continue
+				}
+				rv, ok := returnedValue(ret, 0)
+				if !ok || isNilConst(rv) {
+					continue
+				}
+				n++
+				key := c.fname(fn) + "/row " + c.opName(k) + " needs a non-nil operand"
+				if callGuarded || guardedBy(fn, ret.Block(), guards) {
+					o.add(OK, key, relPath(c, ret.Pos()), "the row is reached only for a non-nil operand")
+				} else {
+					o.add(VIOLATED, key, relPath(c, ret.Pos()), "a range is derived for %s with a nil operand: a nil bound means unbounded, so `x > nil` becomes the range {nil, nil, exclusive, exclusive}, which is reported empty (the indexed query returns nothing while the un-indexed one returns every non-nil value), and intersections read the nil end as the smallest value", c.opName(k))
+				}
+			}
+		}
+	}
+	if n == 0 {
+		o.add(UNDECIDED, "range-table", "-", "criteria->range table not found")
+	}
+	return o.list
+}
